@@ -16,9 +16,11 @@ cd $MX/verif
 SEEDS="$@"
 [ -z "$SEEDS" ] && SEEDS=$(ls /verif/seeded | grep -E '^C[0-9]+-[A-Z]$')
 IDS="${IDS:-C01 C02 C03 C04 C05 C06 C07 C08 C09 C10 C11 C12 C13 C14 C15 C16 C17 C18}"
-OUT=/verif/seeded/RESULTS.tsv
+OUT=${OUT:-/verif/seeded/RESULTS.tsv}
 for s in $SEEDS; do
-  git -C $MX/repo apply /verif/seeded/$s/patch.diff 2>/dev/null || { echo -e "$s\t-\tNOAPPLY\t" >> $OUT; continue; }
+  patch=/verif/seeded/$s/patch.diff
+  case "$s" in *.diff) patch=$(realpath "$s"); s=$(basename "$s" .diff);; esac
+  git -C $MX/repo apply "$patch" 2>/dev/null || { echo -e "$s\t-\tNOAPPLY\t" >> $OUT; continue; }
   for id in $IDS; do
     out=$(VERIF_SEED=${VERIF_SEED:-1} ./check $id quick 2>/dev/null); rc=$?
     echo -e "$s\t$id\t$rc\t$(echo "$out" | grep -E '^(VIOLATION|INCONCLUSIVE)' | head -1 | sed "s#$MX##")" >> $OUT
